@@ -31,3 +31,32 @@ func VerifC09LeaseGoroutines() int {
 	}
 	return strings.Count(string(buf), "RefreshFullSyncLease.func")
 }
+
+// VerifC09LeaseGoroutinesSettled reports whether every live lease-timer goroutine is parked in
+// `<-ctx.Done()`, i.e. has already executed `currentFsID := ds.fullSyncID` (the goroutine reads the id it
+// guards only when it is first scheduled; a history step must not overtake that read).
+func VerifC09LeaseGoroutinesSettled() bool {
+	buf := verifC09Buf
+	for {
+		n := runtime.Stack(buf, true)
+		if n < len(buf) {
+			buf = buf[:n]
+			break
+		}
+		buf = make([]byte, 2*len(buf))
+		verifC09Buf = buf
+	}
+	for _, g := range strings.Split(string(buf), "\n\n") {
+		if !strings.Contains(g, "RefreshFullSyncLease.func") {
+			continue
+		}
+		head := g
+		if i := strings.Index(g, "\n"); i >= 0 {
+			head = g[:i]
+		}
+		if !strings.Contains(head, "[chan receive") {
+			return false
+		}
+	}
+	return true
+}
